@@ -2,9 +2,9 @@ package gosx
 
 import (
 	"bufio"
-	"os"
 	"fmt"
 	"io"
+	"os"
 	"os/exec"
 	"strings"
 	"sync/atomic"
@@ -25,7 +25,7 @@ func (v Verdict) String() string { return [...]string{"unsat", "sat", "unknown"}
 // SolverStats are aggregated over all workers.
 type SolverStats struct {
 	Queries, SatN, UnsatN, UnknownN, Errors int64
-	Nanos                                  int64
+	Nanos                                   int64
 }
 
 func (s *SolverStats) add(v Verdict, d time.Duration) {
